@@ -32,7 +32,7 @@ class _RecFs(object):
 
 def k_location(path: str) -> str:
     """
-    pre: 1 <= len(path) <= 6
+    pre: 1 <= len(path) <= (PARTITION or 6)
     pre: chr(0) not in path
     post: _ == ''
     """
@@ -142,8 +142,8 @@ def w_main(lk: int, sl: int, via: int, layout: int) -> str:
 
 def obligations(tier):
     return [
-        CH('K_location_only_parent_resolved', MOD, 'k_location', timeout=240, engine='K', regime='traced',
-           encodes=['OriginalLocation.for_file', 'Fs.parent_realpath2'], stubs=['realpath -> recorder'], bounds='path: any str 1<=len<=6'),
+        CH('K_location_only_parent_resolved', MOD, 'k_location', timeout=240 if tier == 'quick' else 1800, partitions=[6 if tier == 'quick' else 8], engine='K', regime='traced',
+           encodes=['OriginalLocation.for_file', 'Fs.parent_realpath2'], stubs=['realpath -> recorder'], bounds='path: any str 1<=len<=%d' % (6 if tier == 'quick' else 8)),
         CH('W_link_x_slashes_x_via_x_layout', MOD, 'w_main', timeout=900, engine='W', regime='selector',
            encodes=K.PUT_FUNCS + K.RESTORE_FUNCS, stubs=K.STUBS, bounds='10 link kinds x 0-3 trailing slashes x 4 spellings x 4 layouts (incl. cross-volume via the home fallback)'),
     ]
